@@ -97,6 +97,8 @@ def _preexec(fsize, asbytes):
         resource.setrlimit(resource.RLIMIT_CORE, (0, 0))
         if fsize:
             resource.setrlimit(resource.RLIMIT_FSIZE, (fsize, fsize))
+        if asbytes:
+            resource.setrlimit(resource.RLIMIT_AS, (asbytes, asbytes))
         # SIGXFSZ default action kills the child: that is what we want for a flood.
         signal.signal(signal.SIGPIPE, signal.SIG_DFL)
     return f
@@ -110,7 +112,7 @@ def killpg(pid, sig=signal.SIGKILL):
 
 
 def run(argv, stdin=None, env=None, cwd=None, timeout=20.0, cap=32 << 20, stdout_path=None, stdin_path=None,
-        quit_dump=False):
+        quit_dump=False, as_limit=None):
     """Run argv; stdin is bytes (or None => /dev/null). Returns Result."""
     sc = scratch()
     if env is None:
@@ -137,7 +139,7 @@ def run(argv, stdin=None, env=None, cwd=None, timeout=20.0, cap=32 << 20, stdout
     timed_out = False
     try:
         p = subprocess.Popen(argv, stdin=fin, stdout=fout, stderr=ferr, env=env, cwd=cwd,
-                             preexec_fn=_preexec(cap, None), close_fds=True)
+                             preexec_fn=_preexec(cap, as_limit), close_fds=True)
     except OSError as e:
         fin.close(); fout.close(); ferr.close()
         for x in (inp, errp, None if stdout_path else outp):
